@@ -8,3 +8,5 @@ mod h_gen;
 mod h_helpers;
 #[cfg(kani)]
 mod h_simd;
+#[cfg(all(kani, feature = "sse"))]
+mod h_sse;
